@@ -211,7 +211,8 @@ def t_space(acc, space, L, shard, nshard, stride=1, offset=0, mode='plain', dept
         for v in (24, 25, 26, 27, 28):
             check(acc, cfg.cfg_big(v), L, mode, depth)
         return
-    for idx, spec in cfg.cfg2(space == 'cfg2+'):
+    gen = cfg.cfg3_units() if space == 'cfg3u' else cfg.cfg2(space == 'cfg2+')
+    for idx, spec in gen:
         if idx % stride == offset % stride and (idx // stride) % nshard == shard:
             check(acc, spec, L, mode, depth)
 
@@ -225,18 +226,20 @@ def plan(tier, seed):
 
     add('big', 4, 1)
     add('big', 4, 1, mode='instr', depth=1)
+    add('cfg3u', 3, 16, stride=4 if tier == 'quick' else 1)
+    add('cfg3u', 3, 16, stride=4 if tier == 'quick' else 1, mode='instr', depth=2)
     if tier == 'quick':
         add('cfg2', 4, 32, stride=16)
         add('cfg2+', 4, 32, stride=16)
         add('cfg2', 4, 16, stride=64, mode='instr', depth=1)
         add('cfg2+', 4, 16, stride=64, mode='instr', depth=1)
-        bounds = 'CFG2 and CFG2+ stride 1/16 (plain: conversion, 5 public phases chained, exercise path phases 1..5 with start T and S); stride 1/64 under the scheduler d<=1; CFGbig(24..28); languages compared on words <= 4'
+        bounds = 'CFG2 and CFG2+ stride 1/16 (plain: conversion, 5 public phases chained, exercise path phases 1..5 with start T and S); stride 1/64 under the scheduler d<=1; CFGbig(24..28); three-variable unit-rule family CFG3u (6 912 grammars, unit cycles of length 2 and 3) stride 1/4, plain and under the scheduler d<=2; languages compared on words <= 4'
     else:
         add('cfg2', 5, 128)
         add('cfg2+', 5, 128)
         add('cfg2', 4, 64, stride=4, mode='instr', depth=1)
         add('cfg2+', 4, 64, stride=4, mode='instr', depth=1)
-        bounds = 'CFG2 (53 592) and CFG2+ (53 240) all, languages on words <= 5; stride 1/4 under the scheduler d<=1; CFGbig(24..28)'
+        bounds = 'CFG2 (53 592) and CFG2+ (53 240) all, languages on words <= 5; stride 1/4 under the scheduler d<=1; CFGbig(24..28); CFG3u (6 912 three-variable unit-rule grammars) plain and under the scheduler d<=2'
     return {'tasks': tasks, 'bounds': {'spaces': bounds}, 'exhaustive': True,
             'rule': 'every grammar of the space: cfg_to_chomsky, the five public phase functions chained, cfg_apply_chomsky(G,p,start) for p=1..5; language by least fixpoint on both sides; scheduled layer: cfg_to_chomsky under every <= d set-order deviation; non-trivial = grammar with an epsilon rule and a unit rule',
             'assumptions': ['CFG equivalence is undecidable: languages are compared on all words up to the stated length']}
